@@ -613,10 +613,15 @@ u_plumb(uint64_t idx, void *arg)
                         for (int li = 0; li < 2; li++) {
                             if (li == 1 && (fun == F_CBC || fun == F_SOME_AUX || fun == F_ATMOST_AUX) && N > 1)
                                 continue;
-                            size_t naux = fun >= F_SOME_AUX ? 4 : 1;
+                            /* aux: empty buffers of size 1..4, and buffers that already hold octets (the region
+                             * the plumbing may use is what is free behind them) */
+                            static const size_t auxcfg[][2] = { { 1, 0 }, { 2, 0 }, { 3, 0 }, { 4, 0 }, { 4, 2 }, { 5, 3 },
+                                                                { 8, 4 }, { 8, 5 }, { 6, 1 }, { 7, 6 } };
+                            size_t naux = fun >= F_SOME_AUX ? sizeof auxcfg / sizeof auxcfg[0] : 1;
                             for (size_t a = 0; a < naux; a++) {
-                                /* aux: empty buffers of size 1..4 */
-                                size_t asz = a + 1, aused = 0;
+                                size_t asz = auxcfg[a][0], aused = auxcfg[a][1];
+                                if (aused)
+                                    VH_COUNT("auxiliary buffer that already holds octets");
                                 VH_CASE4(fun, styles, ((uint64_t)sl << 24) | ((uint64_t)sc << 12) | kc,
                                          (N << 8) | (Ls[li] << 4) | a);
                                 VH_SUB(4, kl);
